@@ -8,7 +8,10 @@ NET = "crates/dns-resolver/src/util/net.rs"
 UTYPES = "crates/dns-resolver/src/util/types.rs"
 
 TRUSTED = TRUSTED_COMMON + [
-    "R9 socket stand-ins: UdpSocket::send/send_to record the datagram handed over (uninterpreted `udp_sent`), TcpStream::write_all appends to a ghost byte log, read_u16/read_buf return arbitrary data; no interleaving between awaits is modelled",
+    "R9 socket stand-ins: UdpSocket::send/send_to record the datagram handed over (uninterpreted `udp_sent`), TcpStream::write_all appends to a ghost byte log (or fails, leaving a prefix of it and setting the ghost `failed`), read_u16 / read_buf deliver arbitrary data, any number of octets at a time, EOF or an error at any point (ghost `prefix`, `inp`); no interleaving between awaits is modelled",
+    "BytesMut::with_capacity(n) has capacity exactly n and tokio's read_buf fills a buffer that is not full at most to its capacity (it reads into BytesMut::chunk_mut(), the spare capacity): used to show a TCP message body handed to the decoder has exactly the announced length (<= 65535)",
+    "R45: the block listen_tcp_task hands to tokio::spawn for each accepted connection is read as the body of `tcp_connection__(args, conn__, peer) -> TcpStream` (block text verbatim; added: `let mut stream = conn__;` at entry and the expression `stream` at the end, so that the contract can speak about what was written)",
+    "Message::to_octets: contract assumed here (>= 12 octets, header octets as header_flags1/2, a message without records always serialises), proved in unit wire_codec under msg_names_wf (the DomainName type invariant, C16)",
     "Message::from_octets: contract assumed here, proved in unit wire_decode",
     "resolve(): stand-in (any metrics, any Ok/Err result) assumed to satisfy the answer-chain clause proved in unit local for the real `resolve`; RwLock read stand-in; Prometheus statics dropped (section 3.2-4); logging strings via shims (R27)",
     "== / != on Opcode, Rcode structural",
@@ -19,9 +22,14 @@ BU = "broadcast use group_eq_axioms;"
 NET_STANDINS = """
 // ---- R9: stand-ins for tokio sockets (same method names; effects recorded so that contracts can speak about them)
 pub struct UdpSocket { u: u8 }
-pub struct TcpStream { pub log: Ghost<Seq<u8>> }
+// log: every octet written to the peer so far; failed: a write returned an error; prefix: the length prefix of the current message, once
+// read; inp: the octets of its body received so far
+pub struct TcpStream { pub log: Ghost<Seq<u8>>, pub failed: Ghost<bool>, pub prefix: Ghost<Option<u16>>, pub inp: Ghost<Seq<u8>> }
 pub struct IoError { e: u8 }
+pub uninterp spec fn last_read(s: &TcpStream) -> Seq<u8>;
 pub uninterp spec fn udp_sent(sock: &UdpSocket, data: Seq<u8>) -> bool;
+pub open spec fn same_out(a: &TcpStream, b: &TcpStream) -> bool { a.log@ == b.log@ && a.failed@ == b.failed@ }
+pub open spec fn same_in(a: &TcpStream, b: &TcpStream) -> bool { a.prefix@ == b.prefix@ && a.inp@ == b.inp@ }
 impl UdpSocket {
     #[verifier::external_body]
     pub async fn send(&self, buf: &[u8]) -> (r: Result<usize, IoError>)
@@ -37,9 +45,29 @@ impl UdpSocket {
 impl TcpStream {
     #[verifier::external_body]
     pub async fn write_all(&mut self, buf: &[u8]) -> (r: Result<(), IoError>)
-        ensures r is Ok ==> final(self).log@ == old(self).log@ + buf@, r is Err ==> is_prefix_u8(old(self).log@, final(self).log@),
+        ensures same_in(old(self), final(self)),
+            r is Ok ==> final(self).log@ == old(self).log@ + buf@ && final(self).failed@ == old(self).failed@,
+            r is Err ==> is_prefix_u8(old(self).log@, final(self).log@) && final(self).failed@,
+    { unimplemented!() }
+    // AsyncReadExt::read_u16: the two-octet length prefix, or an I/O error (EOF included); no body octet has been received yet
+    #[verifier::external_body]
+    pub async fn read_u16(&mut self) -> (r: Result<u16, IoError>)
+        ensures same_out(old(self), final(self)), final(self).inp@ == Seq::<u8>::empty(),
+            r is Ok ==> final(self).prefix@ == Some(r->Ok_0), r is Err ==> final(self).prefix@ is None,
+    { unimplemented!() }
+    // AsyncReadExt::read_buf: appends the n >= 0 octets that arrived to the buffer (0 = the peer closed), or fails and leaves it as
+    // it was; a buffer that is not full is filled at most up to its capacity (tokio reads into BytesMut::chunk_mut(), the spare capacity)
+    #[verifier::external_body]
+    pub async fn read_buf(&mut self, buf: &mut BytesMut) -> (r: Result<usize, IoError>)
+        ensures same_out(old(self), final(self)), final(self).prefix@ == old(self).prefix@,
+            r is Ok ==> last_read(final(self)).len() == r->Ok_0 && bmv(final(buf)) == bmv(old(buf)) + last_read(final(self))
+                && final(self).inp@ == old(self).inp@ + last_read(final(self)),
+            r is Err ==> bmv(final(buf)) == bmv(old(buf)) && final(self).inp@ == old(self).inp@,
+            bmv(old(buf)).len() < bm_cap(old(buf)) ==> bmv(final(buf)).len() <= bm_cap(old(buf)) && bm_cap(final(buf)) == bm_cap(old(buf)),
     { unimplemented!() }
 }
+// the ID of a message of which only `s` arrived: its first two octets, if it has them
+pub open spec fn id_of_partial(s: Seq<u8>) -> Option<u16> { if s.len() >= 2 { Some(be16(s[0], s[1])) } else { None } }
 pub open spec fn is_prefix_u8(a: Seq<u8>, b: Seq<u8>) -> bool { a.len() <= b.len() && forall|i: int| 0 <= i < a.len() ==> a[i] == #[trigger] b[i] }
 #[verifier::external_type_specification]
 #[verifier::external_body]
@@ -73,6 +101,8 @@ SPECS = {
         "contract": """    requires old(bytes)@.len() >= 12, // [C09:reply_is_a_complete_message]
     ensures
         framed(old(bytes)@, final(bytes)@, old(bytes)@.len() > 0xffff), // [C09:tc_set_exactly_when_cut_short]
+        same_in(old(stream), final(stream)), is_prefix_u8(old(stream).log@, final(stream).log@),
+        r is Ok ==> final(stream).failed@ == old(stream).failed@, r is Err ==> final(stream).failed@,
         r is Ok ==> ({ let n = if old(bytes)@.len() > 0xffff { 0xffff } else { old(bytes)@.len() as int };
             final(stream).log@ == old(stream).log@ + seq![(n / 256) as u8, (n % 256) as u8] + final(bytes)@.take(n) }), // [C09:tcp_reply_carries_its_exact_length_prefix]""",
         "entry": "proof { lemma_tc_bits(bytes@[2]); }",
@@ -82,6 +112,19 @@ SPECS = {
     assert(bytes@.subrange(0, n) =~= bytes@.take(n));
     assert(stream.log@ =~= old(stream).log@ + seq![(n / 256) as u8, (n % 256) as u8] + bytes@.take(n));
 }"""}]},
+    "read_tcp_bytes": {"props": ["C09"], "rewrites": ["R2a"], "ret": "res",
+        "contract": """    ensures
+        same_out(old(stream), final(stream)),
+        res is Ok ==> bmv(&res->Ok_0) == final(stream).inp@ && final(stream).prefix@ is Some && final(stream).inp@.len() == final(stream).prefix@->Some_0, // [C09:tcp_message_is_read_to_its_length_prefix]
+        res is Err ==> (match res->Err_0 {
+            TcpError::TooShort { id, expected, actual } => id == id_of_partial(final(stream).inp@) && actual == final(stream).inp@.len() && actual < expected
+                && final(stream).prefix@ == Some(expected as u16),
+            TcpError::IO { id, .. } => id == id_of_partial(final(stream).inp@),
+        }), // [C09:tcp_message_cut_short_keeps_its_id_when_it_has_one]""",
+        "loops": {0: {"kw": "while", "spec": """invariant same_out(old(stream), &*stream), bmv(&bytes) == stream.inp@, stream.prefix@ == Some(size), expected == size,
+                bm_cap(&bytes) == expected, bmv(&bytes).len() <= expected,
+            decreases (if bmv(&bytes).len() < expected { expected - bmv(&bytes).len() } else { 0 }),"""}},
+        },
 }
 
 
@@ -147,6 +190,42 @@ fn prune_cache_and_update_metrics(cache: &SharedCache) { unimplemented!() }
 // R27: strings that only feed the log line
 #[verifier::external_body] fn shim_log_ok() -> (r: String) { "ok".to_string() }
 #[verifier::external_body] fn shim_log_err(err: &ResolutionError) -> (r: String) { unimplemented!() }
+// Message::to_octets: contract proved in unit wire_codec (there under msg_names_wf, the DomainName type invariant of C16)
+pub struct SerError { e: u8 }
+impl Message {
+    #[verifier::external_body]
+    pub fn to_octets(&self) -> (r: Result<BytesMut, SerError>)
+        ensures r is Ok ==> bmv(&r->Ok_0).len() >= 12 && bmv(&r->Ok_0)[0] == (self.header.id / 256) as u8 && bmv(&r->Ok_0)[1] == (self.header.id % 256) as u8
+                && bmv(&r->Ok_0)[2] == header_flags1(self.header) && bmv(&r->Ok_0)[3] == header_flags2(self.header),
+            self.questions@.len() <= 0xffff && self.answers@.len() == 0 && self.authority@.len() == 0 && self.additional@.len() == 0 ==> r is Ok,
+    { unimplemented!() }
+}
+// what one reply looks like on a TCP connection: a two-octet big-endian length, then exactly that many octets (at least a header),
+// which start with the given ID and have QR set
+pub open spec fn tcp_reply(pre: Seq<u8>, post: Seq<u8>, id: u16) -> bool {
+    let n = post.len() - pre.len() - 2;
+    let p = pre.len() as int;
+    &&& is_prefix_u8(pre, post) &&& 12 <= n <= 0xffff
+    &&& post[p] == (n / 256) as u8 &&& post[p + 1] == (n % 256) as u8
+    &&& be16(post[p + 2], post[p + 3]) == id
+    &&& post[p + 4] & 0x80 != 0
+}
+pub open spec fn tcp_rcode_bits(pre: Seq<u8>, post: Seq<u8>) -> u8 { post[pre.len() as int + 5] & 0x0f }
+proof fn lemma_wire_qr_rcode(h: Header, f1: u8)
+    requires same_but_tc(header_flags1(h), f1)
+    ensures (f1 & 0x80 != 0) == h.is_response, header_flags2(h) & 0x0f == spec_rcode_to(h.rcode) & 0x0f
+{
+    let b7 = bit(h.is_response, 7); let b2 = bit(h.is_authoritative, 2); let b1 = bit(h.is_truncated, 1); let b0 = bit(h.recursion_desired, 0);
+    let a7 = bit(h.recursion_available, 7); let op = spec_opcode_to(h.opcode); let rc = spec_rcode_to(h.rcode);
+    assert((1u8 << 7u8) == 0x80 && (1u8 << 2u8) == 4 && (1u8 << 1u8) == 2 && (1u8 << 0u8) == 1) by(bit_vector);
+    assert(b7 == (if h.is_response { 0x80u8 } else { 0u8 }));
+    assert(b2 == (if h.is_authoritative { 4u8 } else { 0u8 }));
+    assert(a7 == (if h.recursion_available { 0x80u8 } else { 0u8 }));
+    let g = b7 | (((op & 0x0f) << 3) as u8) | b2 | b1 | b0;
+    assert((b7 == 0 || b7 == 0x80) && (b2 == 0 || b2 == 4) && (b1 == 0 || b1 == 2) && (b0 == 0 || b0 == 1) && g & 0xfd == f1 & 0xfd
+        && g == b7 | (((op & 0x0f) << 3) as u8) | b2 | b1 | b0 ==> ((f1 & 0x80 != 0) == (b7 != 0))) by(bit_vector);
+    assert((a7 == 0 || a7 == 0x80) ==> (a7 | (rc & 0x0f)) & 0x0f == rc & 0x0f) by(bit_vector);
+}
 pub const REFUSED_FOR_MULTIPLE_QUESTIONS: &'static str = "multiple_questions";
 pub const REFUSED_FOR_UNKNOWN_QTYPE_OR_QCLASS: &'static str = "unknown_qtype_or_qclass";
 pub open spec fn err_id(e: Error) -> Option<u16> {
@@ -208,10 +287,38 @@ MAIN_SPECS = {
         query.questions@.len() == 1 && query.questions@[0].qtype != QueryType::Wildcard ==> chain_ok(r.answers@, query.questions@[0].name), // [C09:answer_section_holds_only_the_question_name_and_its_alias_chain]
         query.questions@.len() == 1 ==> typed_ok(r.answers@, query.questions@[0].qtype), // [C09,C10:answer_section_holds_only_aliases_and_records_of_the_asked_type]""",
         "entry": BU + " broadcast use group_answer;"},
+    "tcp_connection__": {"props": ["C09"], "ret": "fin",
+        "contract": """    requires !conn__.failed@, args.upstream_dns_port == configured_port(), args.forward_address is Some ==> args.forward_address->Some_0 == configured_forwarder(),
+    ensures
+        is_prefix_u8(conn__.log@, fin.log@),
+        id_of_partial(fin.inp@) is None ==> fin.log@ == conn__.log@, // [C09:tcp_nothing_is_sent_when_no_id_arrived]
+        !fin.failed@ ==> fin.log@ == conn__.log@
+            || (id_of_partial(fin.inp@) is Some && tcp_reply(conn__.log@, fin.log@, id_of_partial(fin.inp@)->Some_0)), // [C09:tcp_at_most_one_reply_with_the_senders_id_qr_set_and_its_exact_length_prefix]
+        !fin.failed@ && fin.prefix@ is Some && fin.inp@.len() < fin.prefix@->Some_0 && id_of_partial(fin.inp@) is Some
+            ==> tcp_reply(conn__.log@, fin.log@, id_of_partial(fin.inp@)->Some_0) && tcp_rcode_bits(conn__.log@, fin.log@) == 1, // [C09:tcp_message_cut_short_gets_one_formerr_with_its_id]""",
+        "entry": "let mut stream = conn__; // R45: the captured connection, mutable as in the block\n" + BU,
+        "anchors": [
+            {"after_re": r"if let Err\(error\) =\s*send_tcp_bytes\(", "at": "before", "proof": "let ghost orig__ = bmv(&serialised); let ghost pre__ = stream.log@;"},
+            {"after_re": r"send_tcp_bytes\(&mut stream, &mut serialised\)\s*\.await\s*\{[^}]*\}", "proof": """proof {
+    let fin = bmv(&serialised);
+    lemma_wire_qr_rcode(message.header, fin[2]);
+    lemma_be16_div_mod(message.header.id);
+    assert(1u8 & 0x0f == 1) by(bit_vector);
+    if !stream.failed@ {
+        let n = if orig__.len() > 0xffff { 0xffff } else { orig__.len() as int };
+        let post = stream.log@;
+        let p = pre__.len() as int;
+        assert(post == pre__ + seq![(n / 256) as u8, (n % 256) as u8] + fin.take(n));
+        assert(post.len() == p + 2 + n);
+        assert(post[p] == (n / 256) as u8 && post[p + 1] == (n % 256) as u8);
+        assert(post[p + 2] == fin[0] && post[p + 3] == fin[1] && post[p + 4] == fin[2] && post[p + 5] == fin[3]);
+    }
+}"""}]},
     "handle_raw_message": {"props": ["C09"],
         "contract": """    requires buf@.len() <= 0xffff, args.upstream_dns_port == configured_port(), args.forward_address is Some ==> args.forward_address->Some_0 == configured_forwarder(),
     ensures
         buf@.len() < 2 ==> r is None, // [C09:no_reply_to_a_message_too_short_for_an_id]
+        r is None ==> buf@.len() < 2 || (buf@.len() >= 12 && buf@[2] & 0x80 != 0), // [C09:every_message_with_an_id_that_is_not_a_response_is_answered]
         r is Some ==> r->Some_0.header.is_response && !r->Some_0.header.is_truncated, // [C09:reply_has_qr_set]
         r is Some ==> buf@.len() >= 2 && r->Some_0.header.id == be16(buf@[0], buf@[1]), // [C09:reply_carries_the_senders_id]
         buf@.len() >= 12 && (buf@[2] & 0x80 != 0) ==> r is None || r->Some_0.header.rcode == Rcode::FormatError, // [C09:no_reply_to_a_response]
@@ -233,7 +340,7 @@ def _r29(txt):
 
 
 def build(G):
-    begin(G, preludes=("bytes.rs", "std.rs", "net.rs", "std_slices.rs"))
+    begin(G, preludes=("bytes.rs", "std.rs", "bytesmut.rs", "net.rs", "std_slices.rs"))
     name_types(G, tryfrom=False)
     wire_types(G, conv_props=[], conv_mode="assume")
     G.file(os.path.join(PRELUDE, "wire_spec.rs"))
@@ -251,6 +358,8 @@ fn shim_panic_incomplete() requires false, // [C09:server_never_panics_on_a_shor
 { panic!("expected complete message"); }""")
     for k in ("send_udp_bytes", "send_udp_bytes_to", "send_tcp_bytes"):
         G.top_fn(N, k, specs)
+    G.item(N, "enum", "TcpError", drop_derive=("Debug",), rewrites=[io])
+    G.top_fn(N, "read_tcp_bytes", specs)
     # main.rs
     M, T, U, D = G.src(MAIN), G.src(TYPES), G.src(UTYPES), G.src(DESER)
     G.item(D, "enum", "Error")
@@ -274,6 +383,10 @@ fn shim_panic_incomplete() requires false, // [C09:server_never_panics_on_a_shor
     G.top_fn(M, "triage", ms)
     G.top_fn(M, "resolve_and_build_response", ms)
     G.top_fn(M, "handle_raw_message", ms)
+    ms["tcp_connection__"]["rewrites"] = [("R29", _r29), ("R29", r"\n\s*let response_timer = DNS_[A-Z_]+[^;]*;", "\n\n\n"), ("R29", r"\n\s*response_timer\.observe_duration\(\);", "\n"),
+        ("R16", r"id\.map\(Message::make_format_error_response\)", "match id { Some(id) => Some(Message::make_format_error_response(id)), None => None }")]
+    # R45: the block listen_tcp_task hands to tokio::spawn for each accepted connection, read as a function over what it captures
+    G.block_fn(M, "listen_tcp_task", r"tokio::spawn\(async move \{", "async fn tcp_connection__(args: ListenArgs, conn__: TcpStream, peer: SocketAddr) -> TcpStream", "tcp_connection__", ms, tail="stream ")
     end(G)
 
 
@@ -283,7 +396,7 @@ CANARIES = [
     {"name": "udp_cut_at_513", "file": NET, "old": "        sock.send_to(&bytes[..512], target).await?;", "new": "        sock.send_to(&bytes[..513], target).await?;"},
     {"name": "udp_tc_not_cleared", "file": NET, "old": "        bytes[2] &= 0b1111_1101;\n        sock.send_to(bytes, target).await?;", "new": "        sock.send_to(bytes, target).await?;"},
     {"name": "udp_tc_wrong_bit", "file": NET, "old": "        bytes[2] |= 0b0000_0010;\n        sock.send_to(&bytes[..512], target).await?;", "new": "        bytes[2] |= 0b0000_0100;\n        sock.send_to(&bytes[..512], target).await?;"},
-    {"name": "tcp_prefix_little_endian", "file": NET, "old": "stream.write_all(&len.to_be_bytes()).await?;", "new": "stream.write_all(&len.to_le_bytes()).await?;"},
+    {"name": "tcp_prefix_little_endian", "file": NET, "old": "stream.write_all(&len.to_be_bytes()).await?;", "new": "let swapped = (len % 256) * 256 + len / 256;\n    stream.write_all(&swapped.to_be_bytes()).await?;"},
     {"name": "tcp_body_before_prefix", "file": NET, "old": "    stream.write_all(&len.to_be_bytes()).await?;\n    stream.write_all(&bytes[..(len as usize)]).await?;", "new": "    stream.write_all(&bytes[..(len as usize)]).await?;\n    stream.write_all(&len.to_be_bytes()).await?;"},
     {"name": "reply_to_responses", "file": MAIN, "old": "            if msg.header.is_response {", "new": "            if msg.header.is_response && msg.header.is_truncated {"},
     {"name": "notimp_for_standard_too", "file": MAIN, "old": "} else if msg.header.opcode == Opcode::Standard {", "new": "} else if msg.header.opcode == Opcode::Inverse {"},
@@ -291,6 +404,12 @@ CANARIES = [
     {"name": "multiple_questions_answered", "file": MAIN, "old": "    } else {\n        Err(REFUSED_FOR_MULTIPLE_QUESTIONS)\n    }", "new": "    } else {\n        Ok(Some(&query.questions[0]))\n    }"},
     {"name": "nameerror_for_nonauth", "file": MAIN, "old": "                            if let Some(soa_rr) = soa_rr {\n                                response.authority.push(soa_rr);\n                            }", "new": "                            if let Some(soa_rr) = soa_rr {\n                                response.authority.push(soa_rr);\n                                if rrs.is_empty() { response.header.rcode = Rcode::NameError; }\n                            }"},
     {"name": "no_servfail", "file": MAIN, "old": "        response.header.rcode = Rcode::ServerFailure;\n", "new": ""},
-    {"name": "formerr_wrong_id", "file": TYPES, "old": "    pub fn make_format_error_response(id: u16) -> Self {\n        Self {\n            header: Header {\n                id,", "new": "    pub fn make_format_error_response(id: u16) -> Self {\n        Self {\n            header: Header {\n                id: id.swap_bytes(),"},
+    {"name": "formerr_wrong_id", "file": TYPES, "old": "    pub fn make_format_error_response(id: u16) -> Self {\n        Self {\n            header: Header {\n                id,", "new": "    pub fn make_format_error_response(id: u16) -> Self {\n        Self {\n            header: Header {\n                id: !id,"},
+    {"name": "tcp_partial_id_needs_three_octets", "file": NET, "old": "                    Ok(0) if bytes.len() < expected => {\n                        let id = if bytes.len() >= 2 {", "new": "                    Ok(0) if bytes.len() < expected => {\n                        let id = if bytes.len() > 2 {"},
+    {"name": "tcp_partial_id_little_endian", "file": NET, "old": "                    Err(err) => {\n                        let id = if bytes.len() >= 2 {\n                            Some(u16::from_be_bytes([bytes[0], bytes[1]]))", "new": "                    Err(err) => {\n                        let id = if bytes.len() >= 2 {\n                            Some(u16::from_be_bytes([bytes[1], bytes[0]]))"},
+    {"name": "tcp_short_message_passed_on_as_complete", "file": NET, "old": "            while bytes.len() < expected {", "new": "            while bytes.len() + 1 < expected {"},
+    {"name": "tcp_no_formerr_for_a_short_message", "file": MAIN, "old": "                                TcpError::TooShort { id, .. } => id,", "new": "                                TcpError::TooShort { .. } => None,"},
+    {"name": "tcp_reply_sent_twice", "file": MAIN, "old": "                                if let Err(error) =\n                                    send_tcp_bytes(&mut stream, &mut serialised).await\n                                {", "new": "                                let _ = send_tcp_bytes(&mut stream, &mut serialised).await;\n                                if let Err(error) =\n                                    send_tcp_bytes(&mut stream, &mut serialised).await\n                                {"},
+    {"name": "queries_with_aa_set_dropped", "file": MAIN, "old": "            if msg.header.is_response {", "new": "            if msg.header.is_response || msg.header.is_authoritative {"},
     {"name": "response_drops_rd", "file": TYPES, "old": "                recursion_desired: self.header.recursion_desired,", "new": "                recursion_desired: false,"},
 ]
